@@ -1,6 +1,6 @@
 """Shared plumbing of the static checks: result collection, evidence, known
 findings, scratch directories, parallel map.  Python 3 stdlib only."""
-import os, sys, json, time, tempfile, shutil, atexit, hashlib, subprocess, traceback
+import os, re, sys, json, time, tempfile, shutil, atexit, hashlib, subprocess, traceback
 from concurrent.futures import ProcessPoolExecutor
 
 VERIF = os.path.dirname(os.path.dirname(os.path.abspath(__file__)))
@@ -115,6 +115,15 @@ class Rule:
         return cond
 
 
+# build configurations a thorough run adds to the default one, per property (a configuration is listed only where it changes what is analysed)
+THOROUGH_CONFIGS = {
+    'C16': [],                                   # already evaluates the three assembler feature levels itself; window options do not reach the dispatchers
+    'C12': [],                                   # default + GF_LARGE_TABLES handled by the check itself
+    'C11': ['hist8k', 'longhuff'], 'C19': ['hist8k', 'longhuff'], 'C18': ['hist8k', 'longhuff'],
+}
+THOROUGH_DEFAULT = ['hist8k', 'longhuff', 'asfeat6', 'asfeat4']
+
+
 class Report:
     def __init__(self, pid, tier, level='other'):
         self.pid = pid
@@ -134,6 +143,46 @@ class Report:
         self.rules.append(r)
         return r
 
+    def run_subconfigs(self):
+        """thorough tier: the same rules, evaluated again with the library built (assembled / compiled to IR) in every other supported configuration"""
+        import subprocess
+        here = os.path.dirname(os.path.dirname(os.path.abspath(__file__)))
+        cfgs = THOROUGH_CONFIGS.get(self.pid, THOROUGH_DEFAULT)
+        subdir = os.path.join(os.path.dirname(REPLAY_DIR), 'sub-evidence')
+        os.makedirs(subdir, exist_ok=True)
+        jobs = []
+        for c in cfgs:
+            out = os.path.join(subdir, '%s.%s.json' % (self.pid, c))
+            if os.path.exists(out):
+                os.remove(out)
+            env = dict(os.environ, VERIF_CONFIG_ALIAS=c, VERIF_SUBRUN=c, VERIF_SUBOUT=out, VERIF_TIER='quick')
+            jobs.append((c, out, subprocess.Popen([os.path.join(here, 'check'), self.pid, '--tier', 'quick'], env=env, stdout=subprocess.PIPE, stderr=subprocess.STDOUT, text=True)))
+        self.extra['configurations'] = ['default'] + cfgs
+        for c, out, p in jobs:
+            txt, _ = p.communicate()
+            if p.returncode == 2 or not os.path.exists(out):
+                r = self.rule('SUBRUN@' + c, 'the check could be evaluated in configuration %s' % c, floor=1, unit='runs')
+                r.notes.append((re.findall(r'ANALYSIS-BROKEN[^\n]*', txt) or [txt[-300:]])[0])
+                continue
+            d = json.load(open(out))
+            for rr in d['rules']:
+                r = Rule(rr['id'] + '@' + c, rr['text'], 0, rr['unit'])
+                r.instances, r.obligations, r.discharged = rr['instances'], rr['obligations'], rr['discharged']
+                r.notes = rr['notes'][:5]
+                r.failures = [dict(f, rule=f['rule'] + '@' + c, where='[%s] %s' % (c, f['where'])) for f in rr['failures']]
+                self.rules.append(r)
+
+    def finish_sub(self, cfg):
+        out = os.environ.get('VERIF_SUBOUT')
+        rules = []
+        for r in self.rules:
+            rules.append(dict(id=r.id, text=r.text, unit=r.unit, instances=r.instances, obligations=r.obligations, discharged=r.discharged, notes=r.notes[:5], failures=r.failures))
+        with open(out, 'w') as f:
+            json.dump(dict(property=self.pid, config=cfg, rules=rules), f, default=str)
+        nf = sum(len(r.failures) for r in self.rules)
+        print('SUBRUN property=%s config=%s rules=%d failures=%d' % (self.pid, cfg, len(self.rules), nf))
+        return 0
+
     def load_known(self):
         if not os.path.exists(KNOWN):
             return [], []
@@ -144,6 +193,11 @@ class Report:
 
     def finish(self):
         """write evidence, print verdict lines, return exit code"""
+        sub = os.environ.get('VERIF_SUBRUN')
+        if sub:
+            return self.finish_sub(sub)
+        if self.tier == 'thorough':
+            self.run_subconfigs()
         known, fixed = self.load_known()
         knownkeys = {e['key']: e for e in known}
         broken = []
